@@ -40,7 +40,7 @@ class Menu(object):
 
 
 VAR_KINDS = ('W', 'R', 'RW', 'AUG', 'DEL', 'AND', 'OR', 'NOT', 'IFEXP', 'CMP', 'COMP', 'DEFR', 'DEFW', 'LAM', 'CALL')
-NOVAR_KINDS = ('TUP', 'ATTR', 'SUB', 'RATTR', 'RSUB', 'raise')
+NOVAR_KINDS = ('TUP', 'ATTR', 'SUB', 'RATTR', 'RSUB', 'raise', 'S', 'PASS', 'LAMBDA', 'CALLG', 'CLASS')
 
 
 def simple_stmts(menu, loop, fin):
@@ -120,11 +120,45 @@ def stmts(k, menu, d, loop, fin):
       for b in nblocks(a, menu, d - 1, loop, fin):
         for c in nblocks(m - a, menu, d - 1, loop, fin):
           yield ('try', b, c, None)
+  if 'tryO' in comp:
+    # handler for an exception class that is never raised: the raise passes through
+    for a in range(1, m):
+      for b in nblocks(a, menu, d - 1, loop, fin):
+        for c in nblocks(m - a, menu, d - 1, loop, fin):
+          yield ('tryO', b, c)
   if 'tryfin' in comp:
     for a in range(1, m):
       for b in nblocks(a, menu, d - 1, loop, fin):
         for c in nblocks(m - a, menu, d - 1, loop, True):
           yield ('try', b, None, c)
+  if 'whileelse' in comp:
+    for a in range(1, m):
+      for b in nblocks(a, menu, d - 1, True, False):
+        for c in nblocks(m - a, menu, d - 1, loop, fin):
+          yield ('while', b, c)
+  if 'forelse' in comp:
+    for a in range(1, m):
+      for b in nblocks(a, menu, d - 1, True, False):
+        for c in nblocks(m - a, menu, d - 1, loop, fin):
+          yield ('for', 'i', b, c)
+  if 'tryexelse' in comp:
+    for a in range(1, m - 1):
+      for b2 in range(1, m - a):
+        for b in nblocks(a, menu, d - 1, loop, fin):
+          for c in nblocks(b2, menu, d - 1, loop, fin):
+            for e in nblocks(m - a - b2, menu, d - 1, loop, fin):
+              yield ('tryelse', b, c, e)
+  if 'try2h' in comp:
+    for a in range(1, m - 1):
+      for b2 in range(1, m - a):
+        for b in nblocks(a, menu, d - 1, loop, fin):
+          for c in nblocks(b2, menu, d - 1, loop, fin):
+            for e in nblocks(m - a - b2, menu, d - 1, loop, fin):
+              yield ('try2h', b, c, e)
+  if 'def' in comp:
+    for b in nblocks(m, menu, d - 1, False, False):
+      if not contains_kind(b, ('CALLG', 'CALL', 'def')):
+        yield ('def', b)
   if 'tryexfin' in comp:
     for a in range(1, m - 1):
       for b2 in range(1, m - a):
@@ -132,6 +166,16 @@ def stmts(k, menu, d, loop, fin):
           for c in nblocks(b2, menu, d - 1, loop, fin):
             for e in nblocks(m - a - b2, menu, d - 1, loop, True):
               yield ('try', b, c, e)
+
+
+def contains_kind(b, kinds):
+  for st in b:
+    if st[0] in kinds:
+      return True
+    for part in st[1:]:
+      if isinstance(part, tuple) and part and isinstance(part[0], tuple) and contains_kind(part, kinds):
+        return True
+  return False
 
 
 def size(b):
@@ -222,6 +266,39 @@ class Render(object):
       e(ind, '%s = t(%d, g())' % (s[1], self.new()))
     elif k == 'CALLH':
       e(ind, '%s = h%d(%s)' % (s[1], s[2], s[1]))
+    elif k == 'S':
+      e(ind, 't(%d)' % self.new())
+    elif k == 'PASS':
+      e(ind, 'pass')
+    elif k == 'LAMBDA':
+      e(ind, 'lam = lambda: %d' % self.new())
+    elif k == 'CLASS':
+      e(ind, 'class K(object):')
+      e(ind + 1, 'a = %d' % self.new())
+    elif k == 'CALLG':
+      e(ind, 'g()')
+    elif k == 'def':
+      e(ind, 'def g():')
+      self.block(s[1], ind + 1)
+    elif k == 'tryO':
+      e(ind, 'try:')
+      self.block(s[1], ind + 1)
+      e(ind, 'except E2:')
+      self.block(s[2], ind + 1)
+    elif k == 'tryelse':
+      e(ind, 'try:')
+      self.block(s[1], ind + 1)
+      e(ind, 'except E:')
+      self.block(s[2], ind + 1)
+      e(ind, 'else:')
+      self.block(s[3], ind + 1)
+    elif k == 'try2h':
+      e(ind, 'try:')
+      self.block(s[1], ind + 1)
+      e(ind, 'except E2:')
+      self.block(s[2], ind + 1)
+      e(ind, 'except E as err:')
+      self.block(s[3], ind + 1)
     elif k == 'if':
       e(ind, 'if c(%d):' % self.new())
       self.block(s[1], ind + 1)
@@ -231,6 +308,9 @@ class Render(object):
     elif k == 'while':
       e(ind, 'while c(%d):' % self.new())
       self.block(s[1], ind + 1)
+      if len(s) > 2 and s[2]:
+        e(ind, 'else:')
+        self.block(s[2], ind + 1)
     elif k == 'for':
       tg = s[1]
       if tg == 'xy':
@@ -238,6 +318,9 @@ class Render(object):
       else:
         e(ind, 'for %s in it(%d):' % (tg, self.new()))
       self.block(s[2], ind + 1)
+      if len(s) > 3 and s[3]:
+        e(ind, 'else:')
+        self.block(s[3], ind + 1)
     elif k == 'with':
       e(ind, 'with cm(%d):' % self.new())
       self.block(s[1], ind + 1)
@@ -279,7 +362,8 @@ def h3(a):
 '''
 
 
-def source(body, pro=(), epi=(), pid=0, params='o, d', name='f', declare_global=False, helpers=False, pro_base=900):
+def source(body, pro=(), epi=(), pid=0, params='o, d', name='f', declare_global=False, helpers=False, pro_base=900,
+           epilogue=True):
   """Full module source for a program.  The unique pid constant keeps code
   objects of different programs from comparing equal (the cache keys on code
   objects by value)."""
@@ -290,7 +374,10 @@ def source(body, pro=(), epi=(), pid=0, params='o, d', name='f', declare_global=
   for v in pro:
     r.emit(1, '%s = %d' % (v, pro_base + ord(v[0]) % 10))
   r.block(body, 1) if body else None
-  if epi:
+  if not epilogue:
+    if not body and not pro:
+      r.emit(1, 'pass')
+  elif epi:
     r.emit(1, 'return (%d, %s)' % (pid, ', '.join(epi)))
   else:
     r.emit(1, 'return (%d,)' % pid)
@@ -325,14 +412,41 @@ def stmt_reductions(s):
       yield (('if', s[1], r),)
   elif k in ('while', 'with'):
     yield s[1]
+    if len(s) > 2 and s[2]:
+      yield s[2]
+      yield ((k, s[1]),)
+      for r in reductions(s[2]):
+        yield ((k, s[1], r),)
     for r in reductions(s[1]):
       if r:
-        yield ((k, r),)
+        yield ((k, r) + s[2:],)
   elif k == 'for':
     yield s[2]
+    if len(s) > 3 and s[3]:
+      yield s[3]
+      yield (('for', s[1], s[2]),)
+      for r in reductions(s[3]):
+        yield (('for', s[1], s[2], r),)
     for r in reductions(s[2]):
       if r:
-        yield (('for', s[1], r),)
+        yield (('for', s[1], r) + s[3:],)
+  elif k == 'tryO':
+    yield s[1]
+    for j in (1, 2):
+      for r in reductions(s[j]):
+        if r:
+          yield (s[:j] + (r,) + s[j + 1:],)
+  elif k in ('tryelse', 'try2h'):
+    for j in (1, 2, 3):
+      yield s[j]
+      for r in reductions(s[j]):
+        if r:
+          yield (s[:j] + (r,) + s[j + 1:],)
+    yield (('try', s[1], s[2] if k == 'tryelse' else s[3], None),)
+  elif k == 'def':
+    for r in reductions(s[1]):
+      if r:
+        yield (('def', r),)
   elif k == 'try':
     for j in (1, 2, 3):
       if s[j] is not None:
@@ -355,11 +469,18 @@ def skeleton(body):
     if k == 'if':
       out.append('if(%s|%s)' % (skeleton(s[1]), skeleton(s[2])))
     elif k == 'while':
-      out.append('while(%s)' % skeleton(s[1]))
+      out.append('while(%s%s)' % (skeleton(s[1]), '|else:' + skeleton(s[2]) if len(s) > 2 and s[2] else ''))
     elif k == 'for':
-      out.append('for[%s](%s)' % ('i' if s[1] == 'i' else ('xy' if s[1] == 'xy' else 'v'), skeleton(s[2])))
+      out.append('for[%s](%s%s)' % ('i' if s[1] == 'i' else ('xy' if s[1] == 'xy' else 'v'), skeleton(s[2]),
+                                    '|else:' + skeleton(s[3]) if len(s) > 3 and s[3] else ''))
     elif k == 'with':
       out.append('with(%s)' % skeleton(s[1]))
+    elif k == 'tryO':
+      out.append('tryO(%s|%s)' % (skeleton(s[1]), skeleton(s[2])))
+    elif k in ('tryelse', 'try2h'):
+      out.append('%s(%s|%s|%s)' % (k, skeleton(s[1]), skeleton(s[2]), skeleton(s[3])))
+    elif k == 'def':
+      out.append('def(%s)' % skeleton(s[1]))
     elif k == 'try':
       out.append('try(%s|%s|%s)' % tuple('-' if p is None else skeleton(p) for p in s[1:]))
     else:
